@@ -76,6 +76,16 @@ pub fn reference(p: &Program, input: &State, max_steps: u64) -> Result<(State, V
     Ok((iso.st, iso.trace, iso.steps))
 }
 
+/// ISO reference only: Err when the input leaves the defined domain (used by the differential
+/// monitors, which do not need the 8-bit-context agreement)
+pub fn reference_defined(p: &Program, input: &State, max_steps: u64) -> Result<(State, Vec<TraceEv>, u64), String> {
+    let mut iso = Interp::new(p, EvalMode::Iso, input.clone(), max_steps);
+    if let Err(e) = iso.run_main() {
+        return Err(format!("reference left the defined domain: {:?}", e));
+    }
+    Ok((iso.st, iso.trace, iso.steps))
+}
+
 pub fn cycle_budget(steps: u64) -> u64 {
     20_000 + steps * 400
 }
